@@ -82,7 +82,7 @@ func cmdCheck(args []string) int {
 	only := fs.String("only", "", "substring of harness names to run")
 	verbose := fs.Bool("v", false, "verbose")
 	workers := fs.Int("j", 0, "workers")
-	solver := fs.String("solver", "z3", "z3|z3-new|cvc5")
+	solver := fs.String("solver", "race", "z3|z3-new|cvc5")
 	noReplay := fs.Bool("no-replay", false, "skip native replays (debugging only; result is then inconclusive if anything needed one)")
 	keep := fs.Bool("keep", false, "keep temp dir")
 	noEvidence := fs.Bool("no-evidence", false, "do not write the evidence file (partial debugging runs)")
